@@ -4,6 +4,7 @@ package model
 // resolved call sites, natural loops.
 
 import (
+	"fmt"
 	"go/constant"
 	"go/token"
 	"go/types"
@@ -641,4 +642,197 @@ func CopyOf(v ssa.Value, pred func(ssa.Value) bool) bool {
 		return false
 	}
 	return rec(v, 0)
+}
+
+// DeepInstr is an instruction of a function or of a same-package helper it calls (statements a
+// refactoring moved into a new function), with the chain of call sites leading to it.
+type DeepInstr struct {
+	In    ssa.Instruction
+	Fn    *ssa.Function
+	Chain []ssa.CallInstruction // outermost call first; empty for the function's own instructions
+}
+
+// EachInstrDeep visits the instructions of fn (and its closures) and, for every static call to a
+// same-package function with a body, that callee's instructions too, down to depth levels.
+// A helper reached through several call sites is visited once per site.
+func EachInstrDeep(fn *ssa.Function, depth int, visit func(DeepInstr)) {
+	var rec func(f *ssa.Function, chain []ssa.CallInstruction, d int, onStack map[*ssa.Function]bool)
+	rec = func(f *ssa.Function, chain []ssa.CallInstruction, d int, onStack map[*ssa.Function]bool) {
+		for _, g := range WithAnons(f) {
+			EachInstr(g, func(in ssa.Instruction) {
+				visit(DeepInstr{In: in, Fn: g, Chain: chain})
+				if d >= depth {
+					return
+				}
+				ci, ok := in.(ssa.CallInstruction)
+				if !ok {
+					return
+				}
+				ce := ci.Common().StaticCallee()
+				if ce == nil || ce.Blocks == nil || ce.Pkg != fn.Pkg || onStack[ce] || ce.Parent() != nil {
+					return
+				}
+				onStack[ce] = true
+				rec(ce, append(append([]ssa.CallInstruction{}, chain...), ci), d+1, onStack)
+				delete(onStack, ce)
+			})
+		}
+	}
+	rec(fn, nil, 0, map[*ssa.Function]bool{fn: true})
+}
+
+// Resolve maps a value of the helper to the caller's value when it is a parameter of a function
+// on the chain (innermost call first), repeatedly, looking through conversions.
+func (d DeepInstr) Resolve(v ssa.Value) ssa.Value {
+	for i := len(d.Chain) - 1; i >= 0; i-- {
+		prm, ok := Unwrap(v).(*ssa.Parameter)
+		if !ok {
+			return v
+		}
+		ci := d.Chain[i]
+		ce := ci.Common().StaticCallee()
+		if ce == nil || prm.Parent() != ce {
+			return v
+		}
+		args := ci.Common().Args
+		found := false
+		for k, q := range ce.Params {
+			if q == prm && k < len(args) {
+				v = args[k]
+				found = true
+			}
+		}
+		if !found {
+			return v
+		}
+	}
+	return v
+}
+
+// GuardedBy: the instruction is dominated by a guard satisfying pred inside its own function, or
+// one of the calls on its chain is (the helper runs only behind that guard).
+func (d DeepInstr) GuardedBy(pred func(cond ssa.Value, pol bool) bool) bool {
+	if GuardedBy(d.In, pred) {
+		return true
+	}
+	for _, ci := range d.Chain {
+		if GuardedBy(ci, pred) {
+			return true
+		}
+	}
+	return false
+}
+
+// DeepPathQuery is PathQuery over a function with its same-package helpers inlined (see
+// EachInstrDeep): a call to such a helper is followed into the helper's body and, at the
+// helper's return, back to the instruction after the call. Start: after every instruction
+// satisfying From (nil = the function's entry).
+type DeepPathQuery struct {
+	Root   *ssa.Function
+	Depth  int
+	From   func(DeepInstr) bool
+	Stop   func(DeepInstr) bool
+	Target func(DeepInstr) bool
+}
+
+func inlinable(root *ssa.Function, ci ssa.CallInstruction, chain []ssa.CallInstruction, depth int) *ssa.Function {
+	if len(chain) >= depth {
+		return nil
+	}
+	if _, isCall := ci.(*ssa.Call); !isCall {
+		return nil // go / defer run elsewhere
+	}
+	ce := ci.Common().StaticCallee()
+	if ce == nil || ce.Blocks == nil || ce.Pkg != root.Pkg || ce == root || ce.Parent() != nil {
+		return nil
+	}
+	for _, c := range chain {
+		if c.Common().StaticCallee() == ce {
+			return nil
+		}
+	}
+	return ce
+}
+
+// Find returns the first target reachable, or nil.
+func (q DeepPathQuery) Find() *DeepInstr {
+	type state struct {
+		chain []ssa.CallInstruction
+		b     *ssa.BasicBlock
+		i     int
+	}
+	chainKey := func(ch []ssa.CallInstruction) string {
+		s := ""
+		for _, c := range ch {
+			s += fmt.Sprintf("%p/", c)
+		}
+		return s
+	}
+	var work []state
+	if q.From == nil {
+		work = append(work, state{nil, q.Root.Blocks[0], 0})
+	} else {
+		EachInstrDeep(q.Root, q.Depth, func(d DeepInstr) {
+			if d.Fn.Parent() != nil {
+				return // closures run on their own
+			}
+			if q.From(d) {
+				work = append(work, state{d.Chain, d.In.Block(), idx(d.In) + 1})
+			}
+		})
+	}
+	visited := map[string]bool{}
+	for len(work) > 0 {
+		s := work[len(work)-1]
+		work = work[:len(work)-1]
+		k := fmt.Sprintf("%s|%p|%d", chainKey(s.chain), s.b, s.i)
+		if visited[k] {
+			continue
+		}
+		visited[k] = true
+		fn := s.b.Parent()
+		blocked, descended := false, false
+		for i := s.i; i < len(s.b.Instrs); i++ {
+			in := s.b.Instrs[i]
+			d := DeepInstr{In: in, Fn: fn, Chain: s.chain}
+			if q.Target != nil && q.Target(d) {
+				return &d
+			}
+			if q.Stop != nil && q.Stop(d) {
+				blocked = true
+				break
+			}
+			if ci, ok := in.(ssa.CallInstruction); ok {
+				if ce := inlinable(q.Root, ci, s.chain, q.Depth); ce != nil {
+					work = append(work, state{append(append([]ssa.CallInstruction{}, s.chain...), ci), ce.Blocks[0], 0})
+					descended = true
+					break
+				}
+			}
+			if _, isRet := in.(*ssa.Return); isRet && len(s.chain) > 0 {
+				call := s.chain[len(s.chain)-1]
+				work = append(work, state{s.chain[:len(s.chain)-1], call.Block(), idx(call) + 1})
+				descended = true
+				break
+			}
+		}
+		if blocked || descended {
+			continue
+		}
+		for _, succ := range s.b.Succs {
+			work = append(work, state{s.chain, succ, 0})
+		}
+	}
+	return nil
+}
+
+// CountDeep counts the (instruction, call chain) pairs of fn's inlined view satisfying pred.
+func CountDeep(fn *ssa.Function, depth int, pred func(DeepInstr) bool) int {
+	n := 0
+	EachInstrDeep(fn, depth, func(d DeepInstr) {
+		if pred(d) {
+			n++
+		}
+	})
+	return n
 }
